@@ -325,6 +325,7 @@ func init() {
 			{Name: "TAB-CONSUME", What: "CIGAR consumption table and op letters equal the SAM specification's", Floor: 10, Run: ruleTabConsume},
 			{Name: "DEP-ROLES", What: "Lengths/End/IsValid use the Query resp. Reference column of the consumption table for the right result", Floor: 4, Run: ruleDepRoles},
 			{Name: "BIT-CIGAR", What: "CigarOp.Type/Len unpack length<<4|type (bit domain)", Floor: 2, Run: ruleBitCigar},
+			{Name: "PATH-ENDMAX", What: "Record.End returns a running maximum carried through the CIGAR loop (B extension)", Floor: 1, Run: ruleEndMax},
 		},
 		Explanation: "Bin assignment and bin enumeration agree when they use the same (first bin, shift) pair on every level: BIN-PAIRS extracts the pairs of the BAI functions from their SSA (if-chain and level table) and compares them, by value, with the UCSC scheme; BIN-PAIRS-CSI interprets the two CSI recurrences (after checking that they do not depend on the coordinates) for seven geometries. TAB-CONSUME/DEP-ROLES/BIT-CIGAR: the consumption table equals the specification's and each result is driven by the right column.",
 		NotDecided:  "End's max-over-prefix rule with the B extension, IsValid's clipping rules, CSI geometries other than the seven interpreted – value-level.",
